@@ -54,23 +54,43 @@ class Crash(BaseException):
 
 
 class FaultyOpen:
-    """stands in for `open` inside pyphysim.simulations.results: the (n+1)-th opening for writing of the
-    file selected by `match` either raises before touching it ("wbegin") or writes half of the data and
-    then raises ("wcommit")."""
+    """stands in for `open` inside pyphysim.simulations.results: the (n+1)-th SUCCESSFUL opening for writing of the
+    file selected by `match` either raises before touching it ("wbegin"), writes half of the data and then raises
+    ("wcommit"), or lets the data be written completely and raises at the rename that would publish it ("wrename":
+    a whole temporary file next to the old target - durably the same as "wbegin").  An opening that fails by itself
+    (the partial_results folder does not exist yet: the code then creates it and tries again) is not counted."""
 
     def __init__(self, match, skip, mode):
         self.match, self.skip, self.mode, self.seen = match, skip, mode, 0
         self.fired = False
+        self.armed = None
 
     def __call__(self, name, mode="r", *a, **kw):
         if "w" in mode and self.match(str(name)) and not self.fired:
             if self.seen == self.skip:
-                self.fired = True
+                if not os.path.isdir(os.path.dirname(os.path.abspath(str(name)))):
+                    return builtins.open(name, mode, *a, **kw)           # raises: the folder is missing
                 if self.mode == "wbegin":
+                    self.fired = True
                     raise Crash()
-                return _HalfFile(builtins.open(name, mode, *a, **kw))
+                f = builtins.open(name, mode, *a, **kw)
+                self.fired = True
+                if self.mode == "wrename":
+                    self.armed = str(name)
+                    return f
+                return _HalfFile(f)
+            f = builtins.open(name, mode, *a, **kw)
             self.seen += 1
+            return f
         return builtins.open(name, mode, *a, **kw)
+
+    def replace(self, real_replace):
+        def _replace(src, dst, *a, **kw):
+            if self.armed is not None and str(src) == self.armed:
+                self.armed = None
+                raise Crash()
+            return real_replace(src, dst, *a, **kw)
+        return _replace
 
 
 class _HalfFile:
@@ -97,7 +117,7 @@ class _HalfFile:
         return getattr(self.f, n)
 
 
-def make_runner(case, inc, pid, wd, ext, fault, seen, clock):
+def make_runner(case, inc, pid, wd, ext, fault, seen, clock, rel=False):
     from pyphysim.simulations.runner import SimulationRunner
     from pyphysim.simulations.results import Result, SimulationResults
     nv = case["nv"]
@@ -112,13 +132,20 @@ def make_runner(case, inc, pid, wd, ext, fault, seen, clock):
             else:
                 self.params.add("p", list(range(1, nv + 1)))
                 self.params.set_unpack_parameter("p")
-            self.params.add("noise", 1e-9 if pid == 1 else 4e-9)     # a tiny change of a fixed parameter
+            # "other parameters" (pid 2), by the case: a tiny change of a fixed scalar, one element of a fixed list, an extra key
+            kind = (len(case["hist"]) + nv) % 3 if pid != 1 else -1
+            self.params.add("noise", 4e-9 if kind == 0 else 1e-9)
+            self.params.add("lst", [1, 2, 4] if kind == 1 else [1, 2, 3])
+            if kind == 2:
+                self.params.add("extra", 1)
             if case.get("progress_file"):
                 # progress written to files next to the results (a crash leaves such a file behind)
                 self.update_progress_function_style = "text2"
                 self.progress_output_type = "file"
             self.delete_partial_results_bool = bool(case["delete"])
-            self.set_results_filename(os.path.join(wd, "res" + ext))
+            # an absolute name keeps the partial files next to the results; a relative one (the process works in wd)
+            # puts them into the partial_results folder, which the first save has to create
+            self.set_results_filename(("res" + ext) if rel else os.path.join(wd, "res" + ext))
             self.known = {}
             # what changes from one incarnation to the next when the SAME runner object is started again
             self.ctl = {"token": 1000 ** (inc - 1), "fault": fault, "seen": seen, "clock": clock}
@@ -163,6 +190,17 @@ def make_runner(case, inc, pid, wd, ext, fault, seen, clock):
     return Runner()
 
 
+def _disk(wd):
+    """content of every result file under wd (progress files excluded)"""
+    out = {}
+    for dp, _, fs in os.walk(wd):
+        for f in fs:
+            if "res" in f and "progress" not in f.lower():
+                with builtins.open(os.path.join(dp, f), "rb") as fh:
+                    out[os.path.relpath(os.path.join(dp, f), wd)] = fh.read()
+    return out
+
+
 def fault_of(h, case):
     """crash record of the model -> where to inject it in the real run"""
     ph, v, rep = h["crash"], h["v"], f_real(h["rep"])
@@ -190,6 +228,8 @@ def run_case(job):
     """-> (None | description, finding id | None)"""
     case, ext = job[0], job[1]
     reuse = len(job) > 2 and job[2]       # restart on the SAME runner object (interrupted in-process) instead of a new one
+    rel = len(job) > 3 and job[3]         # relative results file name: partial files live in ./partial_results
+    rename = len(job) > 4 and job[4]      # the model's crash before a save is injected at the rename instead of at the open
     import pyphysim.simulations.results as resmod
     from pyphysim.simulations.results import SimulationResults
     os.makedirs(tlc.WORK, exist_ok=True)
@@ -220,7 +260,7 @@ def run_case(job):
                 if pids[inc - 1] != pids[inc - 2]:
                     runner.params["noise"] = 4e-9          # item syntax on the live parameters object
             else:
-                runner = make_runner(case, inc, pids[inc - 1], wd, ext, fault, seen, clock)
+                runner = make_runner(case, inc, pids[inc - 1], wd, ext, fault, seen, clock, rel)
             real_remove = os.remove
             if fault and fault["kind"] == "write":
                 target = fault["file"]
@@ -232,13 +272,17 @@ def run_case(job):
                         m = re.search(r"_unpack_(-?\d+)\.", os.path.basename(n))
                         # (a simulation without unpacked parameters numbers its only combination -1)
                         return bool(m) and (int(m.group(1)) == t - 1 or (nv == 1 and int(m.group(1)) == -1))
-                resmod.open = FaultyOpen(match, fault["skip"], fault["mode"])
+                fo = FaultyOpen(match, fault["skip"], "wrename" if (rename and fault["mode"] == "wbegin") else fault["mode"])
+                resmod.open = fo
+                real_replace = os.replace
+                os.replace = fo.replace(real_replace)
             if fault and fault["kind"] == "remove" and case["delete"]:
                 def bad_remove(path, *a, **k):
                     if "_unpack_" in os.path.basename(str(path)):      # the deletion of the partial-results files
                         raise Crash()
                     return real_remove(path, *a, **k)
                 os.remove = bad_remove
+            disk_before = _disk(wd) if (last and case["outcome"] == "refused") else None
             try:
                 try:
                     runner.simulate()
@@ -247,6 +291,9 @@ def run_case(job):
                     crashed = True
                 except BaseException as ex:  # noqa
                     if last and case["outcome"] == "refused" and isinstance(ex, ValueError):
+                        # refused rather than merged: what was on the disk stays as it was
+                        if disk_before is not None and _disk(wd) != disk_before:
+                            return "partial results of other parameters were refused, but the files on the disk were changed", None
                         return None, None
                     fid = None
                     if inc > 1 and type(ex).__name__ in ("UnpicklingError", "EOFError", "JSONDecodeError", "AttributeError", "ValueError", "IndexError", "KeyError") \
@@ -260,6 +307,8 @@ def run_case(job):
                     except AttributeError:
                         pass
                 os.remove = real_remove
+                if "real_replace" in dir():
+                    os.replace = real_replace
                 runmod.time = real_time
             if not last:
                 if not crashed and not (fault["kind"] == "remove" and not case["delete"]):
@@ -267,7 +316,8 @@ def run_case(job):
                 # what this incarnation loaded must be what the model says was durably saved
                 for v, r0 in seen.items():
                     exp = f_real(loaded.get((inc, v), 0))
-                    if exp and r0 != exp:
+                    # (with nothing to load the first count the stop rule sees is 1: the first repetition of this incarnation)
+                    if r0 != (exp if exp else 1):
                         return f"incarnation {inc} resumed variation {v} from {r0} repetitions, the file held {exp}", None
                 continue
             if case["outcome"] == "refused":
@@ -276,7 +326,7 @@ def run_case(job):
                 return f"unexpected model outcome {case['outcome']}", None
             for v, r0 in seen.items():
                 exp = f_real(loaded.get((inc, v), 0))
-                if exp and r0 != exp:
+                if r0 != (exp if exp else 1):
                     return f"incarnation {inc} resumed variation {v} from {r0} repetitions, the file held {exp}", None
             # the completed simulation
             R = f_real(case["repmax"])
@@ -359,16 +409,18 @@ def run(ctx):
                 cs["nounpack"] = True
             if i % 5 == 3:
                 cs["progress_file"] = True
-        jobs = [(cs, (".pickle", ".json", "")[i % 3], (i // 3) % 2 == 1 and not timers_of(c[0], c[1])) for i, cs in enumerate(cases)]
+        jobs = [(cs, (".pickle", ".json", "")[i % 3], (i // 3) % 2 == 1 and not timers_of(c[0], c[1]), (i // 2) % 2 == 1, (i // 5) % 2 == 1)
+                for i, cs in enumerate(cases)]
         res = pool_map(run_case, jobs, chunksize=max(1, len(jobs) // 64))
-        for (cs, ext, reuse), (d, fid) in zip(jobs, res):
+        for (cs, ext, reuse, rel, rename), (d, fid) in zip(jobs, res):
             ctx.ok((label, str([(h.get("crash"), h["v"], h["rep"], h.get("wf"), h.get("nw")) for h in cs["hist"] if "crash" in h]), cs["pid"]))
             ctx.trace_done()
             if d:
                 if fid:
-                    ctx.finding(fid, d, {"case": cs, "ext": ext, "reuse": reuse})
+                    ctx.finding(fid, d, {"case": cs, "ext": ext, "reuse": reuse, "rel": rel, "rename": rename})
                 else:
-                    ctx.violation(f"{label}{ext}{' (same runner object restarted)' if reuse else ''}: {d}", {"case": cs, "ext": ext, "reuse": reuse})
+                    ctx.violation(f"{label}{ext}{' (same runner object restarted)' if reuse else ''}{' (relative file name)' if rel else ''}: {d}",
+                                  {"case": cs, "ext": ext, "reuse": reuse, "rel": rel, "rename": rename})
         if cases:
             cs = cases[len(cases) // 2]
             ctx.sample({"config": label, "crashes": [{k: h[k] for k in ("inc", "crash", "v", "rep", "wf", "nw")} for h in cs["hist"] if "crash" in h],
@@ -379,7 +431,7 @@ def run(ctx):
 
 def replay(ctx, data):
     c = data["case"]
-    d, fid = run_case((c["case"], c["ext"], c.get("reuse", False)))
+    d, fid = run_case((c["case"], c["ext"], c.get("reuse", False), c.get("rel", False), c.get("rename", False)))
     ctx.ok()
     if d:
         if fid:
